@@ -356,7 +356,7 @@ theorem success_status_passes_the_gate (cfg : Cfg) (w : ErrCodec.Wire) :
     have hne : exDigest ≠ [] := by decide
     have hj : appJSON ≠ [] := by decide
     have hlen : ¬ ((cfg.errBody w).length : Int) < 0 := by omega
-    simp [clientDecode, clientResolve, gate, toResp, descriptorFromResponse, hget, qget, hne, hj, hlen]
+    simp [clientDecode, clientResolve, gate, toResp, descriptorFromResponse, hget, qget, hne, hd, hj, hlen]  -- F32: `hd` used, statement unchanged
   · intro own h
     simp [clientDecode, h, clientPushManifest, gate, toResp]
 
